@@ -8,6 +8,7 @@ import Djc.Proofs.Render
 import Djc.Proofs.Plain
 import Djc.Proofs.LeafSpec
 import Djc.Proofs.Slotty
+import Djc.Proofs.Filled
 import Djc.Spec.Render
 namespace Djc.Props.C01
 open Djc.Tpl Djc.Render Djc.Proofs.Render
@@ -237,6 +238,49 @@ theorem C01_full_partial_template_failure_same_exception_django (env : Env) (i :
   exact Djc.Proofs.Slotty.leaf_slotty_fail_alike env i name kwargs false dyn ctx ctx w e s d er st (by rw [hl]; rfl) hr hd hdyn hp ho
     hsrc hsteps hgcd hext hpar hout hprov hf3 hc hfg hok hnf he hsid hss hidle (by rw [hl]; exact hc2) (by intro k _; rw [hl]; rfl)
 
+/-- **"Each slot renders the fill addressed to it" — end to end for one named fill** (django mode; the isolated
+counterpart, where the fill is lexically scoped, is `Djc.Props.C03.fill_is_lexically_scoped_isolated`).
+`{% component name … %}{% fill "nm" %}…{% endfill %}{% endcomponent %}`, no enclosing component: the tag body is read in
+fill-extraction mode, the fill travels through `resolve_fills` into the instance's `ComponentContext`, the template is
+rendered later by `component_post_render`, and in it the slot called `nm` prints the fill's content — evaluated with
+the component's data over the outer variables — while every other slot prints its own default content.  The model of
+the code prints exactly what the reading of the property prints.  All contexts, worlds, kwargs, plain fill contents,
+templates of the slot fragment. -/
+theorem C01_full_partial_named_fill_django (env : Env) (i : Nat) (name : Str) (kwargs : List (Str × Expr)) (dyn : Bool)
+    (nm : Str) (fnodes : List Node) (ctx : Ctx) (w : World) (e : Djc.SpecRender.SEnv) (s : Djc.SpecRender.SState)
+    (d : CompDef) (toks : List Tok) (st : Nat)
+    (hmode : env.isolated = false)
+    (hr : env.raiseAt = none) (hd : findDef env name = some d) (hdyn : isDynName name = false)
+    (hp : Djc.Proofs.Slotty.slottyL d.template = true) (ho : Djc.Proofs.Slotty.okSL d.template = true)
+    (hsrc : d.data.all (fun kv => Djc.Proofs.Leaf.pureSrc kv.2) = true)
+    (hfp : Djc.Proofs.Plain.plainL fnodes = true) (hfo : Djc.Proofs.Calm.okNamesL fnodes = true)
+    (hsteps : ¬ w.steps + 1 ≥ env.maxSteps) (hgcd : w.gcds < env.maxInst)
+    (hext : isExtracting ctx = false)
+    (hcap : capturedExtra (ctx ++ [[(fillGenKey, .fillGen)]]) = [])
+    (hpar : ∀ p, ctxGet ctx compKey ≠ some (.compRef p))
+    (hout : ctxGet (snapshot ctx) compKey = none) (hocfree : Djc.Proofs.Plain.ctxFree (snapshot ctx) = true)
+    (hprov : w.provideCache = [])
+    (hf1 : alGet w.nextId w.ctxCache = none) (hf2 : alGet w.nextId w.rendererCache = none)
+    (hf3 : alGet w.nextId w.childAttrs = none) (hf4 : w.allRefIds.contains w.nextId = false)
+    (hc : Djc.Proofs.Plain.ctxFree (Djc.Proofs.Filled.fillCtx ctx w.nextId (evalKwargs ctx kwargs) d nm fnodes) = true)
+    (hfg : ctxGet (Djc.Proofs.Filled.fillCtx ctx w.nextId (evalKwargs ctx kwargs) d nm fnodes) fillGenKey = none)
+    (hok : Djc.Proofs.Filled.fNodes true env.maxSteps nm fnodes none (i + 1) d.template
+      (Djc.Proofs.Filled.fillCtx ctx w.nextId (evalKwargs ctx kwargs) d nm fnodes) (w.steps + 2) = (.ok toks, st))
+    (he : e.vars = ctx) (hei : e.inst = none) (hefree : Djc.Proofs.Plain.ctxFree ctx = true)
+    (hsid : s.nextId = w.nextId) (hss : s.steps = w.steps + 1) (hidle : ¬ s.nextId > env.maxInst)
+    (hc2 : Djc.Proofs.Plain.ctxFree (Djc.Proofs.Filled.specVarsF false ctx w.nextId (evalKwargs ctx kwargs) d nm) = true) :
+    ((renderNode env (i + 6) (.comp name kwargs false dyn [.fill (.lit nm) none none fnodes]) ctx).run.run w).1 =
+        .ok (.marker name w.nextId :: addRootAttrs [idAttr w.nextId] toks) ∧
+      ∃ s', (Djc.SpecRender.sNode env (i + 6) (.comp name kwargs false dyn [.fill (.lit nm) none none fnodes]) e).run s =
+        .ok (.marker name w.nextId :: addRootAttrs [idAttr w.nextId] toks, s') := by
+  have hl : (false || env.isolated) = false := by rw [hmode]; rfl
+  have hok' : Djc.Proofs.Filled.fNodes true env.maxSteps nm fnodes (if env.isolated then some (snapshot ctx) else none) (i + 1) d.template
+      (Djc.Proofs.Filled.fillCtx ctx w.nextId (evalKwargs ctx kwargs) d nm fnodes) (w.steps + 2) = (.ok toks, st) := by
+    rw [hmode]; exact hok
+  exact Djc.Proofs.Filled.filled_model_eq_spec env i name kwargs false dyn nm fnodes ctx ctx w e s d toks st (by rw [hl]; rfl)
+    (Or.inl rfl) hr hd hdyn hp ho hsrc hfp hfo hsteps hgcd hext hcap hpar hout hocfree hprov hf1 hf2 hf3 hf4 hc hfg hok'
+    he hei hefree hsid hss hidle (by rw [hl]; exact hc2) (by intro k _; rw [hl]; rfl)
+
 /-! ### the hypotheses of the slot theorem are satisfiable -/
 
 section SlotExample
@@ -313,6 +357,49 @@ example :
     rfl rfl hfd (by decide +kernel) (by decide +kernel) (by decide +kernel) (by decide +kernel) (by decide +kernel)
     (by decide +kernel) (by decide +kernel) hpar hout rfl rfl (by decide +kernel) hfg (by decide +kernel) (by decide)
     rfl rfl rfl (by decide +kernel) (by decide +kernel)).1
+def fDef : CompDef :=
+  { name := "c0".toList,
+    template := [.elem "div".toList [.slot (.lit "s".toList) false false [] [.text "dflt".toList]],
+                 .slot (.lit "t".toList) false false [] [.text "T".toList]],
+    data := [("a".toList, .kwarg "a".toList)] }
+def fEnvD : Env := { isolated := false, lib := [fDef] }
+def fBody : List Node := [.text "[".toList, .out (.var ["x".toList]), .out (.var ["a".toList]), .text "]".toList]
+
+/-- `{% component "c0" a="A" %}{% fill "s" %}[{{ x }}{{ a }}]{% endfill %}{% endcomponent %}` in django mode, template
+`<div>{% slot "s" %}dflt{% endslot %}</div>{% slot "t" %}T{% endslot %}`: slot `s` prints the fill — which sees the page's
+`x` and the component's `a` — slot `t` its default. -/
+example :
+    ((renderNode fEnvD 19 (.comp "c0".toList [("a".toList, .lit "A".toList)] false false
+        [.fill (.lit "s".toList) none none fBody]) exCtx).run.run {}).1 =
+      .ok [.marker "c0".toList 1, .opn "div".toList [idAttr 1], .text "[".toList, .text "X".toList, .text "A".toList,
+           .text "]".toList, .cls "div".toList, .text "T".toList] := by
+  have h0 : (ctxGet exCtx compKey).isNone = true := by decide +kernel
+  have hpar : ∀ p, ctxGet exCtx compKey ≠ some (.compRef p) := by
+    intro p hp; rw [hp] at h0; cases h0
+  have h1 : (ctxGet (snapshot exCtx) compKey).isNone = true := by decide +kernel
+  have hout : ctxGet (snapshot exCtx) compKey = none := by
+    cases h : ctxGet (snapshot exCtx) compKey with
+    | none => rfl
+    | some v => rw [h] at h1; cases h1
+  have h2 : (ctxGet (Djc.Proofs.Filled.fillCtx exCtx 1 (evalKwargs exCtx [("a".toList, .lit "A".toList)]) fDef "s".toList fBody) fillGenKey).isNone = true := by
+    decide +kernel
+  have hfg : ctxGet (Djc.Proofs.Filled.fillCtx exCtx 1 (evalKwargs exCtx [("a".toList, .lit "A".toList)]) fDef "s".toList fBody) fillGenKey = none := by
+    cases h : ctxGet (Djc.Proofs.Filled.fillCtx exCtx 1 (evalKwargs exCtx [("a".toList, .lit "A".toList)]) fDef "s".toList fBody) fillGenKey with
+    | none => rfl
+    | some v => rw [h] at h2; cases h2
+  have h3 : (capturedExtra (exCtx ++ [[(fillGenKey, .fillGen)]])).isEmpty = true := by decide +kernel
+  have hcap : capturedExtra (exCtx ++ [[(fillGenKey, .fillGen)]]) = [] := List.isEmpty_iff.mp h3
+  have hfd : findDef fEnvD "c0".toList = some fDef := by
+    simp [findDef, fEnvD, fDef]
+  have h := (C01_full_partial_named_fill_django fEnvD 13 "c0".toList [("a".toList, .lit "A".toList)] false "s".toList fBody
+    exCtx {} (.mk exCtx [] none []) { steps := 1 } fDef
+    [.opn "div".toList [], .text "[".toList, .text "X".toList, .text "A".toList, .text "]".toList, .cls "div".toList, .text "T".toList] 10
+    rfl rfl hfd (by decide +kernel) (by decide +kernel) (by decide +kernel) (by decide +kernel) (by decide +kernel)
+    (by decide +kernel) (by decide +kernel) (by decide +kernel) (by decide +kernel) hcap hpar hout (by decide +kernel)
+    rfl rfl rfl rfl rfl (by decide +kernel) hfg (by decide +kernel)
+    rfl rfl (by decide +kernel) rfl rfl (by decide +kernel) (by decide +kernel)).1
+  rw [h]
+  decide +kernel
 end SlotExample
 
 /-- The property at full strength, as a statement about the two interpreters: whenever neither
